@@ -55,6 +55,9 @@ func Since(t Time) Duration { return Now().Sub(t) }
 func Until(t Time) Duration { return t.Sub(Now()) }
 
 func Sleep(d Duration) {
+	if sched.Closing() {
+		return
+	}
 	if !sched.Active() {
 		time.Sleep(d)
 		return
@@ -65,6 +68,11 @@ func Sleep(d Duration) {
 }
 
 func After(d Duration) <-chan Time {
+	if sched.Closing() {
+		ch := make(chan Time, 1)
+		ch <- time.Now()
+		return ch
+	}
 	if !sched.Active() {
 		return time.After(d)
 	}
@@ -82,6 +90,9 @@ type Timer struct {
 }
 
 func NewTimer(d Duration) *Timer {
+	if sched.Closing() {
+		d = 0
+	}
 	if !sched.Active() {
 		rt := time.NewTimer(d)
 		return &Timer{C: rt.C, rt: rt}
@@ -128,6 +139,9 @@ type Ticker struct {
 }
 
 func NewTicker(d Duration) *Ticker {
+	if sched.Closing() {
+		d = 24 * time.Hour
+	}
 	if !sched.Active() {
 		rt := time.NewTicker(d)
 		return &Ticker{C: rt.C, rt: rt}
